@@ -65,6 +65,7 @@ def run(chk: Check) -> None:
     run_cli_strict(chk, ix)
     run_replayed_lists_reset(chk, ix)
     run_comma_lists_stripped(chk, ix)
+    run_glob_stars_span_components(chk, ix)
     O = options_attrs(ix)
     mopt = ix.module("mypy.options")
     mcfg = ix.module("mypy.config_parser")
@@ -576,3 +577,33 @@ def run_comma_lists_stripped(chk: Check, ix) -> None:
                     r.violation(key, f.loc(lp), f"the loop uses `{v}` as it comes out of split(','): `[mypy-a.*, b]` registers the pattern ' b', which matches no module")
     if n < 5:
         raise AnalysisError(f"config_parser.py: only {n} consumers of comma-separated values found")
+
+
+def run_glob_stars_span_components(chk: Check, ix) -> None:
+    """R17.12: a star in a per-module pattern stands for zero or more module components."""
+    import re as _re
+    r = chk.rule("R17.12", "Options.compile_glob turns the `*` components of a per-module pattern into regular-expression fragments (string constants in the function). The documented meaning of a star is `zero or more module components`, so each fragment, taken as a regex, matches the empty continuation and continuations of one and of several dotted components (`a`, `a.b` for a leading star; ``, `.a`, `.a.b` for a later one): a fragment that stops at a dot makes `[mypy-*.models]` apply to app.models and silently not to proj.app.models", floor=2)
+    f = ix.func("mypy.options.Options.compile_glob")
+    frags = []
+    for n in ast.walk(f.node):
+        if isinstance(n, ast.IfExp):
+            # `<escaped literal> if part != "*" else <fragment>`  /  the reverse
+            test = norm(n.test)
+            if '"*"' in test.replace("'", '"'):
+                star_arm = n.orelse if "!=" in test else n.body
+                if isinstance(star_arm, ast.Constant) and isinstance(star_arm.value, str):
+                    leading = any(isinstance(s, ast.Subscript) and norm(s).endswith("[0]") for s in ast.walk(n.test))
+                    frags.append((star_arm.value, leading, n))
+    if len(frags) < 2:
+        raise AnalysisError(f"compile_glob: {len(frags)} star fragments found (expected the leading and the interior one)")
+    for frag, leading, node in frags:
+        key = f"compile_glob: the {'leading' if leading else 'interior'} star fragment spans any number of components"
+        samples = ["a", "a.b", "a.b.c"] if leading else ["", ".a", ".a.b"]
+        try:
+            bad = [s for s in samples if _re.fullmatch(frag, s) is None]
+        except _re.error as e:
+            raise AnalysisError(f"compile_glob: fragment {frag!r} is not a regular expression: {e}")
+        if not bad:
+            r.ok(key, f.loc(node), f"{frag!r} matches {samples}")
+        else:
+            r.violation(key, f.loc(node), f"the fragment {frag!r} does not match {bad[0]!r}: a star that stops at a dot covers one component only, so `[mypy-*.models]` no longer applies to proj.app.models (and no longer overrides structured sections or the command line there)")
